@@ -8,7 +8,9 @@ from .core import Plugin
 
 REPS = ["a", "1", "_", ".", "-", ":", "/", "#", " ", "\t", "\n", "[", "]", "é", "\u0663"]   # U+0663: a non-ASCII decimal digit
 SMALL = ["a", "1", ":", "/", " ", "\n", "[", "_"]
-EXOTIC = [" ", " ", "\u001c", "\u0085", "　", "​", "Z", "A", "z", "0", "9", "~", "%", "é", "𝔘", "\r", "\x0b", "\x0c"]
+ASCII = [chr(i) for i in range(128)]
+PUNCT = [c for c in ASCII if 33 <= ord(c) < 127 and not c.isalnum()]
+EXOTIC = PUNCT + [" ", " ", "\u001c", "\u0085", "　", "​", "Z", "A", "z", "0", "9", "~", "%", "é", "𝔘", "\r", "\x0b", "\x0c"]
 
 
 def mk(s: str):
@@ -21,8 +23,8 @@ class C20(Plugin):
     prop = 20
     counts = {"quick": 20000, "thorough": 1000000}
     rule = ("every string of length <= 4 (quick) / <= 5 plus length 6 over an 8-symbol sub-alphabet (thorough) over one representative per "
-            "character class {letter, digit, '_', '.', '-', ':', '/', '#', space, tab, newline, '[', ']', non-ASCII letter, non-ASCII decimal digit}; plus random "
-            "strings of length 5..14 mixing the representatives with exotic whitespace (U+00A0, U+2028, U+001C, U+0085, U+3000), zero-width "
+            "character class {letter, digit, '_', '.', '-', ':', '/', '#', space, tab, newline, '[', ']', non-ASCII letter, non-ASCII decimal digit}; every string of length <= 2 over all 128 ASCII characters and every ASCII character before / inside / after every two-symbol context; plus random "
+            "strings of length 5..14 mixing the representatives with all ASCII punctuation, exotic whitespace (U+00A0, U+2028, U+001C, U+0085, U+3000), zero-width "
             "space, other letters and digits. Non-trivial: length >= 2 and at least one character that is not an ASCII letter. "
             "Each case carries the whitespace table (str.isspace) of its own characters.")
     exhaustive_flag = True
@@ -37,6 +39,20 @@ class C20(Plugin):
         if tier != "quick":
             for t in itertools.product(SMALL, repeat=6):
                 out.append(mk("".join(t)))
+        # every ASCII character (controls and all punctuation included), not only the class representatives: every string of
+        # length <= 2 over the 128 ASCII characters, and every ASCII character in the middle of / after a two-symbol context
+        seen = {c[0] for c in out}
+        for n in (1, 2):
+            for t in itertools.product(ASCII, repeat=n):
+                x = "".join(t)
+                if x not in seen:
+                    out.append(mk(x))
+        for x in ASCII:
+            for a, b in itertools.product(SMALL, repeat=2):
+                for y in (a + x + b, a + b + x, x + a + b):
+                    if y not in seen:
+                        seen.add(y)
+                        out.append(mk(y))
         return out
 
     def generate(self, rng: random.Random, n: int):
